@@ -40,7 +40,8 @@ contract(T + "._fold_strict_enhanced", "C11", params=SCHEMA, callbacks=MV, raise
 
 MATCH_LOOP = "for match in matches"
 EXTR_STEP = {"step": {"first-validating-match-wins": "implies(_exit != 'return', not (json_ok(match.strip()) and mv_ok(schema, json.loads(match.strip()))))"},
-             "invariant": ["True"], "property_level": ["first-validating-match-wins"]}
+             "invariant": ["True"], "property_level": ["first-validating-match-wins"],
+             "exhaustive": "no-break"}      # every candidate of a pattern is tried until one validates: a failing candidate must not end the search
 EXTR_ENS = {
     "valid-carries-validated-json-from-the-text": "implies(result.valid, is_bound('match') and json_ok(match.strip()) and result.structure == from_json(schema, match.strip()))",
     "invalid-has-no-structure-but-a-trace": "implies(not result.valid, result.structure is None and result.error_trace is not None)",
